@@ -159,6 +159,8 @@ class BaseNode(Node):
             self.value = value
         else:
             self.set_value(value.value)
+        # imports re-create nodes from their raw value: keep it in step with the value
+        self.value_raw = self.raw_value(self.value.value, isinstance(self.value, IntegerType))
 
     def slice_value(self, slices, value=None):
         """ Slice part of the value
